@@ -70,6 +70,16 @@ CLAIMS = {
   "note": "The numerical results of Go arithmetic and the math/time libraries are trusted, not computed. Trusted: go/types, engine/absint, engine/tables.",
   "technique": "abstract interpretation with symbolic arguments + expected-term tables; loop × reference-automaton product",
  },
+ "C02": {
+  "text": "Structural necessary conditions of join semantics, decided on all paths: a record whose join key contains NULL is neither stored in nor looked up in the key trees of either stream join (inner: dropped; outer: padded iff on an outer side), for every combination of LEFT/RIGHT/FULL and input side; the left and right halves of both joins (producer goroutines, select cases, buffer flushing) are token-level mirror images under left↔right; every output row puts the left record first and the right record at offset len(left) with the right retraction flags (matches, padding retraction on first match, re-emission after last retraction); the unmatched path pads iff on an outer side with the right length and offset; the lookup join runs the joined side with the source record in context, concatenates source then joined and XORs retractions; LEFT/RIGHT/FULL map to the right flags; `ON a = b` becomes key pairs with each part on the side whose variables it uses; key matching is lexicographic Compare.",
+  "note": "The match set for arbitrary data and the behaviour under every interleaving are not decided (C19). Trusted: go/types, engine/absint, engine/mirror, tidwall/btree.",
+  "technique": "finite-domain abstract interpretation of receiveRecord + token-level mirror comparison of sibling regions + truth tables",
+ },
+ "C04": {
+  "text": "Each rewrite is abstractly interpreted on a symbolic plan and the node it returns is inspected: every filter-pushdown rule is run once per class of predicate (which join sides its variables use; for `a = b` which side each part uses) and the predicate must end up exactly where the class allows (branch filter(s), key pair with left part in LeftKey / right part in RightKey, or the filter that stays above), nowhere else and never dropped, with the untouched parts of the join carried over; filter merging keeps both filters' conjuncts; datasource pushdown stores accepted predicates in the datasource and keeps rejected ones above; column pruning cuts Schema.Fields and every parallel slice at corresponding positions and shifts TimeField iff behind the removed column, never offers the time field or group-by keys; isUsed consults every plan field that names a column and every whole-row consumer; and an `=` may become a join key only because the joins never match NULL keys.",
+  "note": "Semantic equivalence of arbitrary rewritten plans (program equivalence), datasource-side predicate evaluation and run-time alignment of pruned schemas with file columns are not decided. Trusted: go/types, engine/absint.",
+  "technique": "abstract interpretation of each rewrite on a symbolic plan with placement/conservation checks of the returned node",
+ },
 }
 
 NOT_APPLICABLE = {
